@@ -123,7 +123,7 @@ def run(prop: str, tier: str) -> int:
     for inc, exc in choices:
         reg, failed = attempt(get_analyzers, include=inc, exclude=exc)
         recs.append(dict(observe(reg, marked, inc, exc, [], check_kw=False, failed=failed), origin="get_analyzers"))
-    for inc, exc in choices[:: 6 if tier == "quick" else 1][:400]:
+    for inc, exc in choices[:: 6 if tier == "quick" else 1][:120]:
         # through build_registry, as generators (Iterable[str]) rather than lists
         reg, failed = attempt(build_registry, "", iter(inc) if inc is not None else None, iter(exc) if exc is not None else None)
         recs.append(dict(observe(reg, marked, inc, exc, shipped_files, failed=failed), origin="build_registry(include, exclude)"))
@@ -196,11 +196,7 @@ def run(prop: str, tier: str) -> int:
         for r_ in recs:
             f.write(json.dumps(r_) + "\n")
     n = len(recs)
-    r = tlc.run("RegistryTrace", "SPECIFICATION Spec\nCHECK_DEADLOCK FALSE\n", env={"TRACE_FILE": path}, timeout=3000, heap="12g")
-    v = r.verdicts()
-    judged = [t for t, cl in v.items() if "ACCEPT" in cl or "REJECT" in cl]
-    if not r.completed or len(judged) != n:
-        raise MachineryError(f"RegistryTrace: {len(judged)}/{n} judged\n" + r.diagnosis())
+    v, r = tlc.run_trace("RegistryTrace", "SPECIFICATION Spec\nCHECK_DEADLOCK FALSE\n", path, n, max_lines=400, max_bytes=25_000_000)
     res.add("trace_states", r.distinct)
     for t, cl in v.items():
         for c in cl:
